@@ -959,11 +959,10 @@ def regex_rule(ctx):
     regex_backtracking(ctx, 'C17.regex', ['bumble.hfp', 'bumble.at', 'bumble.transport'])
 
 
-def sdp_containment(ctx):
+def sdp_containment(ctx, rule='C17.sdp-containment'):
     """A nested SDP element must end inside its container: otherwise the parser's offset moves backwards when the
     container closes and the tail is parsed once per enclosing level (2^depth)."""
     R, p = ctx.r, ctx.p
-    rule = 'C17.sdp-containment'
     pn = p.find('bumble.sdp.DataElementParser.parse_next')
     lf = p.find('bumble.sdp.DataElementParser._list_from_bytes')
     if pn is None or lf is None:
@@ -998,8 +997,24 @@ def sdp_containment(ctx):
                         big = t.left if isinstance(t.ops[0], (ast.Gt, ast.GtE)) else t.comparators[0]
                         ok = ok or (pol and (dotted(big) or norm(big)) not in attrs)
     R.check(ok, rule, 'bumble.sdp.DataElementParser.parse_next | element ends inside its container', 'an element whose end lies past the container end raises before anything is parsed from it', 'a nested element may extend past the end of its container: when the container closes the offset moves backwards and the tail is parsed again by every enclosing level (exponential in the nesting depth)', p.loc(pn))
-    restored = any(isinstance(st, ast.Assign) and any(dotted(t) in attrs for t in st.targets) for st in lf.body[lf.body.index(loops[0]) + 1:]) if loops else False
-    R.check(restored, rule, 'bumble.sdp.DataElementParser._list_from_bytes | container end restored', 'the enclosing container bound is put back after the loop', 'the bound of the enclosing container is not restored after a nested sequence: siblings that follow are checked against the wrong end', p.loc(lf))
+    # path rule: every normal exit taken after the bound was set has put the outer bound back
+    attr = next(iter(attrs), None)
+
+    class Rs(paths.Domain):
+        # None: not yet set; 'inner': set to the nested end; 'outer': restored
+        def event(self, node, v):
+            if isinstance(node, ast.Assign) and attr is not None:
+                for t in node.targets:
+                    tg = t.elts if isinstance(t, ast.Tuple) else [t]
+                    vals = node.value.elts if isinstance(t, ast.Tuple) and isinstance(node.value, ast.Tuple) else [node.value]
+                    for a, b in zip(tg, vals):
+                        if dotted(a) == attr:
+                            return ('inner' if isinstance(b, ast.Name) and b.id == param else 'outer',)
+            return (v,)
+    rs = paths.run(lf, Rs(), None)
+    left = [' '.join(w) for v, w in paths.normal_exits(rs).items() if v == 'inner']
+    restored = bool(attrs) and not left and any(v == 'outer' for v in paths.normal_exits(rs))
+    R.check(restored, rule, 'bumble.sdp.DataElementParser._list_from_bytes | container end restored', 'the enclosing container bound is put back on every exit', 'the bound of the enclosing container is not restored after a nested sequence: siblings that follow are checked against the wrong end', p.loc(lf))
 
 
 def except_name_rule(ctx):
